@@ -1,5 +1,499 @@
+/-
+C09 — message calls are atomic and see the right context.
+
+Theorems about `Model.Calls` (the model of `SEVM.call` / `call_known` / `call_unknown` / `SEVM.create` /
+`transfer_value` / `handle_insufficient_fund_case` / `copy_returndata_to_memory` / `Exec.returndata`).
+A frame's behaviour is an interaction tree (`Frame`); callee / init behaviours are arbitrary sub-trees, so every
+statement below quantifies over call trees of any depth and width.  Statements that mention `run` hold for an
+arbitrary callee behaviour (any function, not even required to come from a tree); `runBody callee` is the instance
+for a tree.
+
+The model is tied to the real SEVM by `tools/vlib/callsmodel.py` (random call trees compiled to contracts, run on the
+real SEVM, on this model through `Driver/Calls.lean`, and on the reference EVM).
+-/
+import HalmosVerif.Lemmas.Calls
 import HalmosVerif.Spec.Evm
+
 namespace HalmosVerif.Props.C09
-open HalmosVerif.Spec
-theorem placeholder : Evm.ceil32 1 = 32 := by decide
+open HalmosVerif.Model.Calls
+
+/-! ### concrete scenery for the non-vacuity examples -/
+
+def A : Addr := 0x1000
+def B : Addr := 0x2000
+def C : Addr := 0x3000
+
+/-- three accounts with code; `A` owns 10 wei -/
+def w0 : W :=
+  { code := fun a => if a = A ∨ a = B ∨ a = C then some [] else none
+    storage := fun _ _ => 0
+    transient := fun _ _ => 0
+    balance := fun a => if a = A then 10 else 0 }
+
+def s0 : St := { w := w0, cnt := 0 }
+
+def ctxA : Ctx := { this := A, caller := 0xCAFE, origin := 0xCAFE, value := 0, codeAddr := A, isStatic := false, depth := 1 }
+
+/-- innermost frame: writes, returns one byte -/
+def inner : Frame := .eff (.sstore 1 9) (.eff (.tstore 4 4) (.done (.ret [0x2a])))
+
+/-- middle frame: writes, calls `C` with 2 wei, then reverts or returns depending on `ok` -/
+def middle (ok : Bool) : Frame :=
+  .eff (.sstore 1 7) (.call .call C 2 32 {} inner fun seen =>
+    .done (if ok then .ret [seen.flag, 0xaa] else .revert [seen.flag, 0xde]))
+
+/-- outer frame: writes, calls `B` with 3 wei, records the flag it saw, returns flag and returndata -/
+def outer (ok : Bool) : Frame :=
+  .eff (.sstore 1 5) (.call .call B 3 1 {} (middle ok) fun seen =>
+    .eff (.sstore 2 (seen.flag + 100)) (.done (.ret (seen.flag :: seen.returndata ++ seen.memCopy))))
+
+/-- what the examples look at: storage slot 1 of A, B, C, slot 2 of A, transient slot 4 of C, the three balances -/
+def observe (r : St × Outcome) : List Nat × Outcome :=
+  ([r.1.w.storage A 1, r.1.w.storage B 1, r.1.w.storage C 1, r.1.w.storage A 2, r.1.w.transient C 4,
+    r.1.w.balance A, r.1.w.balance B, r.1.w.balance C], r.2)
+
+/-- a 3-level tree whose middle frame reverts: the inner frame's (successful) writes and both value transfers are undone,
+the outer frame sees flag 0, the revert data, and the copy truncated to `ret_size = 1` -/
+example : observe (runFrame (outer false) ctxA s0) = ([5, 0, 0, 100, 0, 10, 0, 0], .ret [0, 1, 0xde, 1]) := by decide
+
+/-- the same tree with a returning middle frame: everything persists -/
+example : observe (runFrame (outer true) ctxA s0) = ([5, 7, 9, 101, 4, 7, 1, 2], .ret [1, 1, 0xaa, 1]) := by decide
+
+/-! ### atomic -/
+
+/-- **atomic**: whatever the callee does (any tree, any depth, including successful nested frames, value transfers and
+creations inside it), if the call does not succeed then the caller continues with the world — code, storage,
+transient storage, balances — exactly as it was when the CALL-family instruction started. -/
+theorem atomic (run : Ctx → St → St × Outcome) (sch : Scheme) (to fund rs : Nat) (pr : Prank) (ctx : Ctx) (s : St)
+    (h : (callStep run sch to fund rs pr ctx s).2.success = false) :
+    (callStep run sch to fund rs pr ctx s).1.w = s.w := by
+  by_cases hi : callInsufficient sch fund pr ctx s
+  · rw [callStep_insufficient run sch to fund rs pr ctx s hi]
+  · cases hc : s.w.code to with
+    | none => rw [callStep_unknown run sch to fund rs pr ctx s hi hc] at h; cases h
+    | some c =>
+      rw [callStep_known run sch to fund rs pr ctx s hi (by simp [hc])] at h ⊢
+      rw [finishCall_seen] at h
+      rw [finishCall_w, if_neg (by simpa using h)]
+
+/-- the same for CREATE / CREATE2 (only the address counter keeps its advance) -/
+theorem atomic_create (run : Ctx → St → St × Outcome) (a2 : Option Addr) (v : Nat) (pr : Prank) (ctx : Ctx) (s : St)
+    (h : (createStep run a2 v pr ctx s).2.success = false) :
+    (createStep run a2 v pr ctx s).1.w = s.w := by
+  by_cases hi : createInsufficient v pr ctx s
+  · rw [createStep_insufficient run a2 v pr ctx s hi, createBump_w]
+  · by_cases hc : (s.w.code (createAddr a2 s)).isSome
+    · rw [createStep_collision run a2 v pr ctx s hi hc, createBump_w]
+    · rw [createStep_runs run a2 v pr ctx s hi hc] at h ⊢
+      rw [finishCreate_success] at h
+      exact finishCreate_w_fail _ _ _ h
+
+/-- for a CALL-family instruction the pushed word is 0 exactly when the call did not succeed -/
+theorem flag_zero_iff (run : Ctx → St → St × Outcome) (sch : Scheme) (to fund rs : Nat) (pr : Prank) (ctx : Ctx) (s : St) :
+    (callStep run sch to fund rs pr ctx s).2.flag = 0 ↔ (callStep run sch to fund rs pr ctx s).2.success = false := by
+  by_cases hi : callInsufficient sch fund pr ctx s
+  · rw [callStep_insufficient run sch to fund rs pr ctx s hi]; simp [Seen.failedEmpty]
+  · cases hc : s.w.code to with
+    | none => rw [callStep_unknown run sch to fund rs pr ctx s hi hc]; simp
+    | some c =>
+      rw [callStep_known run sch to fund rs pr ctx s hi (by simp [hc]), finishCall_seen]
+      cases (guarded run (mkMessage sch to (fundOf sch fund) pr ctx) (afterSend sch to fund pr ctx s)).2.isSuccess <;> simp
+
+/-- atomicity at the level of whole trees: a frame that calls a failing tree continues from its own pre-call world -/
+theorem atomic_tree (sch : Scheme) (to fund rs : Nat) (pr : Prank) (callee : Frame) (k : Seen → Frame) (ctx : Ctx) (s : St)
+    (h : (callStep (runBody callee) sch to fund rs pr ctx s).2.flag = 0) :
+    runBody (.call sch to fund rs pr callee k) ctx s
+      = runBody (k (callStep (runBody callee) sch to fund rs pr ctx s).2) ctx
+          { w := s.w, cnt := (callStep (runBody callee) sch to fund rs pr ctx s).1.cnt } := by
+  have hw := atomic (runBody callee) sch to fund rs pr ctx s ((flag_zero_iff ..).mp h)
+  simp only [runBody]
+  congr 1
+  cases hcs : (callStep (runBody callee) sch to fund rs pr ctx s).1 with
+  | mk w cnt => rw [hcs] at hw; simp at hw; simp [hw]
+
+/-- non-vacuity: the reverting middle frame of the example tree is such a failing callee (with a successful child) -/
+example : (callStep (runBody (middle false)) .call B 3 1 {} ctxA s0).2.success = false := by decide
+
+/-! ### success_persists -/
+
+/-- **success_persists** (one instruction): when the callee succeeds nothing is restored — the caller continues from the
+callee's end state (which includes the value transfer made before it ran). -/
+theorem success_persists (run : Ctx → St → St × Outcome) (sch : Scheme) (to fund rs : Nat) (pr : Prank) (ctx : Ctx) (s : St)
+    (hi : ¬ callInsufficient sch fund pr ctx s) (hc : (s.w.code to).isSome)
+    (h : (guarded run (mkMessage sch to (fundOf sch fund) pr ctx) (afterSend sch to fund pr ctx s)).2.isSuccess = true) :
+    (callStep run sch to fund rs pr ctx s).1
+      = (guarded run (mkMessage sch to (fundOf sch fund) pr ctx) (afterSend sch to fund pr ctx s)).1 := by
+  rw [callStep_known run sch to fund rs pr ctx s hi hc, finishCall_st, if_pos h]
+
+/-- a successful CREATE keeps the init frame's end state and installs the returned bytes as the new account's code -/
+theorem success_persists_create (run : Ctx → St → St × Outcome) (a2 : Option Addr) (v : Nat) (pr : Prank) (ctx : Ctx) (s : St)
+    (hi : ¬ createInsufficient v pr ctx s) (hc : ¬ (s.w.code (createAddr a2 s)).isSome) (code : Bytes)
+    (h : (guarded run (mkCreateMessage (createAddr a2 s) v pr ctx) (createStart a2 v pr ctx s)).2 = .ret code) :
+    let r := guarded run (mkCreateMessage (createAddr a2 s) v pr ctx) (createStart a2 v pr ctx s)
+    (createStep run a2 v pr ctx s).1 = { r.1 with w := { r.1.w with code := upd r.1.w.code (createAddr a2 s) (some code) } } := by
+  intro r
+  rw [createStep_runs run a2 v pr ctx s hi hc]
+  simp only [finishCreate, r, h]
+
+/-- **success_persists** (whole frames): the end state of a non-static straight-line frame is exactly the left-to-right
+composition of its actions' contributions (`Act.effect`: an instruction's own write; a successful sub-frame's whole end
+state; nothing but the counter advance for a failed sub-frame) — sub-frames being arbitrary trees. -/
+theorem success_persists_frame (acts : List Act) (o : Outcome) (ctx : Ctx) (hns : ctx.isStatic = false) (s : St) :
+    runBody (ofScript acts o) ctx s = (acts.foldl (fun s a => Act.effect ctx s a) s, o) :=
+  runBody_ofScript acts o ctx hns s
+
+example : (guarded (runBody (middle true)) (mkMessage .call B (fundOf .call 3) {} ctxA) (afterSend .call B 3 {} ctxA s0)).2.isSuccess
+    = true := by decide
+
+/-! ### caller_sees -/
+
+/-- **caller_sees**: for a call that runs code, the pushed flag is 1 iff the callee succeeded (else 0), the returndata
+buffer is the callee's output (RETURN or REVERT data, empty for exceptional halts), and the memory copy is its first
+`min(ret_size, len)` bytes. -/
+theorem caller_sees (run : Ctx → St → St × Outcome) (sch : Scheme) (to fund rs : Nat) (pr : Prank) (ctx : Ctx) (s : St)
+    (hi : ¬ callInsufficient sch fund pr ctx s) (hc : (s.w.code to).isSome) :
+    let out := (guarded run (mkMessage sch to (fundOf sch fund) pr ctx) (afterSend sch to fund pr ctx s)).2
+    let seen := (callStep run sch to fund rs pr ctx s).2
+    seen.flag = (if out.isSuccess then 1 else 0) ∧ seen.returndata = out.data ∧
+      seen.memCopy = out.data.take (min rs out.data.length) := by
+  intro out seen
+  show (callStep run sch to fund rs pr ctx s).2.flag = _ ∧ (callStep run sch to fund rs pr ctx s).2.returndata = _ ∧
+    (callStep run sch to fund rs pr ctx s).2.memCopy = _
+  rw [callStep_known run sch to fund rs pr ctx s hi hc, finishCall_seen]
+  exact ⟨rfl, rfl, rfl⟩
+
+/-- a call to an account without code succeeds with empty returndata and touches no memory -/
+theorem caller_sees_unknown (run : Ctx → St → St × Outcome) (sch : Scheme) (to fund rs : Nat) (pr : Prank) (ctx : Ctx) (s : St)
+    (hi : ¬ callInsufficient sch fund pr ctx s) (hc : s.w.code to = none) :
+    (callStep run sch to fund rs pr ctx s).2 = { success := true, flag := 1, returndata := [], memCopy := [] } := by
+  rw [callStep_unknown run sch to fund rs pr ctx s hi hc]
+
+/-- CREATE: the new address is pushed and the returndata buffer reads as EMPTY after success; 0 is pushed and the
+returndata buffer holds the init frame's output after failure; memory is never written -/
+theorem caller_sees_create (run : Ctx → St → St × Outcome) (a2 : Option Addr) (v : Nat) (pr : Prank) (ctx : Ctx) (s : St)
+    (hi : ¬ createInsufficient v pr ctx s) (hc : ¬ (s.w.code (createAddr a2 s)).isSome) :
+    let out := (guarded run (mkCreateMessage (createAddr a2 s) v pr ctx) (createStart a2 v pr ctx s)).2
+    let seen := (createStep run a2 v pr ctx s).2
+    seen.flag = (if out.isSuccess then createAddr a2 s else 0) ∧
+      seen.returndata = (if out.isSuccess then [] else out.data) ∧ seen.memCopy = [] := by
+  intro out seen
+  show (createStep run a2 v pr ctx s).2.flag = _ ∧ (createStep run a2 v pr ctx s).2.returndata = _ ∧
+    (createStep run a2 v pr ctx s).2.memCopy = _
+  rw [createStep_runs run a2 v pr ctx s hi hc]
+  simp only [finishCreate, out]
+  split <;> simp_all [Outcome.isSuccess]
+
+/-- the continuation of the calling frame receives exactly that record, and the state after the instruction -/
+theorem caller_continues (sch : Scheme) (to fund rs : Nat) (pr : Prank) (callee : Frame) (k : Seen → Frame) (ctx : Ctx) (s : St) :
+    runBody (.call sch to fund rs pr callee k) ctx s
+      = runBody (k (callStep (runBody callee) sch to fund rs pr ctx s).2) ctx (callStep (runBody callee) sch to fund rs pr ctx s).1 := by
+  simp only [runBody]
+
+example : (callStep (runBody (middle false)) .call B 3 1 {} ctxA s0).2
+    = { success := false, flag := 0, returndata := [1, 0xde], memCopy := [1] } := by decide
+
+/-! ### frame_context -/
+
+/-- a callee that reports the context it runs in -/
+def probe : Frame := .read fun c _ => .done (.ret [c.this, c.caller, c.origin, c.value, c.codeAddr, if c.isStatic then 1 else 0, c.depth])
+
+def report (c : Ctx) : Bytes := [c.this, c.caller, c.origin, c.value, c.codeAddr, if c.isStatic then 1 else 0, c.depth]
+
+/-- **frame_context**: the callee's context is `mkMessage …` (the probe callee returns it to its caller), and
+`mkMessage` is the Yellow-Paper table (no prank active):
+CALL: this = to, caller = the calling account, value = the value passed, code of `to`, staticness inherited;
+STATICCALL: the same with value 0 and static;
+DELEGATECALL: this / caller / value of the parent, code of `to`;
+CALLCODE: this = caller = the calling account, value passed, code of `to`. -/
+theorem frame_context (sch : Scheme) (to fund rs : Nat) (pr : Prank) (ctx : Ctx) (s : St)
+    (hi : ¬ callInsufficient sch fund pr ctx s) (hc : (s.w.code to).isSome) (hd : ¬ ctx.depth + 1 > MAX_CALL_DEPTH) :
+    (callStep (runBody probe) sch to fund rs pr ctx s).2.returndata = report (mkMessage sch to (fundOf sch fund) pr ctx) := by
+  rw [callStep_known _ sch to fund rs pr ctx s hi hc, finishCall_seen, guarded_ok _ _ _ (by simpa [mkMessage] using hd)]
+  rfl
+
+theorem frame_context_table (to fund : Nat) (ctx : Ctx) :
+    mkMessage .call to (fundOf .call fund) {} ctx
+      = { this := to, caller := ctx.this, origin := ctx.origin, value := fund, codeAddr := to,
+          isStatic := ctx.isStatic, depth := ctx.depth + 1 } ∧
+    mkMessage .staticcall to (fundOf .staticcall fund) {} ctx
+      = { this := to, caller := ctx.this, origin := ctx.origin, value := 0, codeAddr := to,
+          isStatic := true, depth := ctx.depth + 1 } ∧
+    mkMessage .delegatecall to (fundOf .delegatecall fund) {} ctx
+      = { this := ctx.this, caller := ctx.caller, origin := ctx.origin, value := ctx.value, codeAddr := to,
+          isStatic := ctx.isStatic, depth := ctx.depth + 1 } ∧
+    mkMessage .callcode to (fundOf .callcode fund) {} ctx
+      = { this := ctx.this, caller := ctx.this, origin := ctx.origin, value := fund, codeAddr := to,
+          isStatic := ctx.isStatic, depth := ctx.depth + 1 } := by
+  simp [mkMessage, fundOf]
+
+/-- CREATE: this = the new address, caller = the creating account, value passed, not static (even … it cannot be
+reached from a static frame), own (init) code -/
+theorem frame_context_create (a2 : Option Addr) (v : Nat) (ctx : Ctx) (s : St)
+    (hi : ¬ createInsufficient v {} ctx s) (hc : ¬ (s.w.code (createAddr a2 s)).isSome) (hd : ¬ ctx.depth + 1 > MAX_CALL_DEPTH) :
+    (createStep (runBody (.read fun c _ => .done (.revert (report c)))) a2 v {} ctx s).2.returndata
+      = report { this := createAddr a2 s, caller := ctx.this, origin := ctx.origin, value := v,
+                 codeAddr := createAddr a2 s, isStatic := false, depth := ctx.depth + 1 } := by
+  rw [createStep_runs _ a2 v {} ctx s hi hc, guarded_ok _ _ _ (by simpa [mkCreateMessage] using hd)]
+  rfl
+
+/-- with an active prank the pranked sender is the callee's caller (and the account that pays) for every scheme but
+DELEGATECALL, which keeps the parent's caller; a pranked origin is the callee's origin -/
+theorem frame_context_prank (sch : Scheme) (to fund : Nat) (p o : Addr) (ctx : Ctx) :
+    (mkMessage sch to fund { sender := some p, origin := some o } ctx).caller = (if sch = .delegatecall then ctx.caller else p) ∧
+    (mkMessage sch to fund { sender := some p, origin := some o } ctx).origin = o := by
+  cases sch <;> simp [mkMessage]
+
+example : (callStep (runBody probe) .delegatecall B 3 0 {} { ctxA with value := 6 } s0).2.returndata
+    = [A, 0xCAFE, 0xCAFE, 6, B, 0, 2] := by decide
+
+example : (callStep (runBody probe) .staticcall B 3 0 {} ctxA s0).2.returndata = [B, A, 0xCAFE, 0, B, 1, 2] := by decide
+
+/-! ### static_enforced -/
+
+/-- **static_enforced**: inside a static frame SSTORE, TSTORE, LOG (`Frame.eff`) and CREATE / CREATE2 halt the frame
+with `WriteInStaticContext`, at the state it had (which the caller then discards, by `atomic`). -/
+theorem static_enforced (ctx : Ctx) (s : St) (h : ctx.isStatic = true) :
+    (∀ e rest, runBody (.eff e rest) ctx s = (s, .fail .writeInStatic)) ∧
+    (∀ a2 v pr init k, runBody (.create a2 v pr init k) ctx s = (s, .fail .writeInStatic)) := by
+  constructor
+  · intro e rest; simp only [runBody, h, if_true]
+  · intro a2 v pr init k; simp only [runBody, h, if_true]
+
+/-- seen from the caller: a STATICCALL (or any call made from a static frame) to code that starts with such an
+instruction pushes 0 and leaves the world as it was -/
+theorem static_enforced_caller (sch : Scheme) (to fund rs : Nat) (pr : Prank) (ctx : Ctx) (s : St) (callee : Frame)
+    (hst : ctx.isStatic = true ∨ sch = .staticcall)
+    (hw : (∃ e rest, callee = .eff e rest) ∨ (∃ a2 v p init k, callee = .create a2 v p init k))
+    (hc : (s.w.code to).isSome) :
+    (callStep (runBody callee) sch to fund rs pr ctx s).2.flag = 0 ∧
+    (callStep (runBody callee) sch to fund rs pr ctx s).1.w = s.w := by
+  have hflag : (callStep (runBody callee) sch to fund rs pr ctx s).2.success = false := by
+    by_cases hi : callInsufficient sch fund pr ctx s
+    · rw [callStep_insufficient _ sch to fund rs pr ctx s hi]; rfl
+    · rw [callStep_known _ sch to fund rs pr ctx s hi hc, finishCall_seen]
+      have hms : (mkMessage sch to (fundOf sch fund) pr ctx).isStatic = true := by
+        rcases hst with h | h
+        · exact mkMessage_static sch to _ pr ctx h
+        · subst h; exact mkMessage_staticcall to _ pr ctx
+      show (guarded (runBody callee) _ _).2.isSuccess = false
+      unfold guarded; split
+      · rfl
+      · rcases hw with ⟨e, rest, rfl⟩ | ⟨a2, v, p, init, k, rfl⟩
+        · rw [(static_enforced _ _ hms).1]; rfl
+        · rw [(static_enforced _ _ hms).2]; rfl
+  exact ⟨(flag_zero_iff ..).mpr hflag, atomic _ sch to fund rs pr ctx s hflag⟩
+
+/-
+Full statement (what the EVM guarantees): a frame running in a static context never changes the world,
+    ∀ f ctx s, ctx.isStatic = true → (runBody f ctx s).1.w = s.w.
+It is FALSE of the current code: `send_callvalue` has no static-context check for a value-bearing CALL
+(`# TODO: revert if context is static`), see `static_value_call_cex`. What does hold for every tree:
+-/
+
+/-- **static_world_partial**: a static frame — any tree — leaves code, storage and transient storage untouched, and,
+when no CALL in the tree carries value, the balances too (so then the whole world). -/
+theorem static_world_partial (f : Frame) (ctx : Ctx) (s : St) (h : ctx.isStatic = true) :
+    (runBody f ctx s).1.w.code = s.w.code ∧ (runBody f ctx s).1.w.storage = s.w.storage ∧
+    (runBody f ctx s).1.w.transient = s.w.transient ∧ (NoValueCall f → (runBody f ctx s).1.w = s.w) := by
+  obtain ⟨h1, h2, h3⟩ := runBody_static_same3 f ctx s h
+  exact ⟨h1, h2, h3, fun hn => W.ext' h1 h2 h3 (runBody_static_balance f ctx s h hn)⟩
+
+/-- the body of the callee at 0x2000 in the directed scenario "static-call-with-value" (tools/vlib/sevm_corpus.py):
+`CALL(0x2222, value 1)`, then return the flag -/
+def svcCallee : Frame := .call .call 0x2222 1 0 {} (.done (.ret [])) fun seen => .done (.ret [seen.flag])
+
+def svcWorld : W :=
+  { code := fun a => if a = 0x1000 ∨ a = 0x2000 then some [] else none
+    storage := fun _ _ => 0, transient := fun _ _ => 0
+    balance := fun a => if a = 0x2000 then 1 else 0 }
+
+def svcStaticCtx : Ctx :=
+  { this := 0x2000, caller := 0x1000, origin := 0xCAFE, value := 0, codeAddr := 0x2000, isStatic := true, depth := 2 }
+
+/-- **static_value_call_cex**: the full statement is false of the code as it is — a value-bearing CALL inside a static
+frame succeeds and moves balance. (Replayed on the real SEVM by the harness: corpus case "static-call-with-value".) -/
+theorem static_value_call_cex : ¬ (∀ (f : Frame) (ctx : Ctx) (s : St), ctx.isStatic = true → (runBody f ctx s).1.w = s.w) := by
+  intro hall
+  have h := congrArg (fun w => w.balance 0x2222) (hall svcCallee svcStaticCtx ⟨svcWorld, 0⟩ rfl)
+  revert h; decide
+
+/-- the whole scenario: 0x1000 STATICCALLs 0x2000, which sends 1 wei to 0x2222: the STATICCALL reports success, the inner
+CALL reported success, and the balance has moved -/
+example :
+    let main : Frame := .call .staticcall 0x2000 0 32 {} svcCallee fun seen => .done (.ret (seen.flag :: seen.returndata))
+    let r := runFrame main { this := 0x1000, caller := 0xCAFE, origin := 0xCAFE, value := 0, codeAddr := 0x1000, isStatic := false, depth := 1 }
+      ⟨svcWorld, 0⟩
+    (r.2, r.1.w.balance 0x2000, r.1.w.balance 0x2222) = (.ret [1, 1], 0, 1) := by decide
+
+example : (runBody inner svcStaticCtx s0) = (s0, .fail .writeInStatic) := (static_enforced svcStaticCtx s0 rfl).1 _ _
+
+/-! ### value_conserved -/
+
+/-- **value_conserved**: for every tree, the sum of the balances over any duplicate-free address list `S` that
+contains every address the run can touch — the running account, every call target, pranked sender and CREATE2 address
+named in the tree (`Closed`), and the addresses the allocator hands out during this run — is unchanged, provided the
+sum fits a word (otherwise the recipient's addition wraps, as in the code). Transfers happen only when the sender's
+balance covers them, and failed frames restore. -/
+theorem value_conserved (S : List Addr) (hS : S.Nodup) (f : Frame) (ctx : Ctx) (s : St)
+    (hthis : ctx.this ∈ S) (hcl : Closed S f) (hlt : sumBal S s.w.balance < WORD)
+    (halloc : ∀ n, s.cnt < n → n ≤ (runBody f ctx s).1.cnt → newAddress n ∈ S) :
+    sumBal S (runBody f ctx s).1.w.balance = sumBal S s.w.balance :=
+  runBody_sum hS f ctx s hthis hcl hlt halloc
+
+/-- the same for a whole frame including its depth check -/
+theorem value_conserved_frame (S : List Addr) (hS : S.Nodup) (f : Frame) (ctx : Ctx) (s : St)
+    (hthis : ctx.this ∈ S) (hcl : Closed S f) (hlt : sumBal S s.w.balance < WORD)
+    (halloc : ∀ n, s.cnt < n → n ≤ (runBody f ctx s).1.cnt → newAddress n ∈ S) :
+    sumBal S (runFrame f ctx s).1.w.balance = sumBal S s.w.balance := by
+  unfold runFrame guarded; split
+  · rfl
+  · exact runBody_sum hS f ctx s hthis hcl hlt halloc
+
+/-- a tree that moves value through three levels and creates a contract with an endowment -/
+def mover : Frame :=
+  .call .call B 3 0 {} (.call .call C 2 0 {} (.done (.ret [])) fun _ => .done (.ret [])) fun _ =>
+    .create none 4 {} (.done (.ret [0xfe])) fun _ => .done (.ret [])
+
+example : (let r := runBody mover ctxA s0
+    ([r.1.w.balance A, r.1.w.balance B, r.1.w.balance C, r.1.w.balance (newAddress 1)], r.1.cnt)) = ([3, 1, 2, 4], 1) := by decide
+
+example : Closed [A, B, C, newAddress 1] mover := by
+  simp [mover, Closed, A, B, C, newAddress, magicAddress, newAddressOffset]
+
+example : sumBal [A, B, C, newAddress 1] (runBody mover ctxA s0).1.w.balance = 10 := by decide
+
+/-! ### insufficient_fails -/
+
+/-- **insufficient_fails**: a value-bearing CALL / CALLCODE whose (pranked) sender owns less than the value pushes 0 with
+empty returndata, changes nothing — and runs no callee code: the result is the same for every callee behaviour. -/
+theorem insufficient_fails (run : Ctx → St → St × Outcome) (sch : Scheme) (to fund rs : Nat) (pr : Prank) (ctx : Ctx) (s : St)
+    (hs : sch = .call ∨ sch = .callcode) (h0 : fund ≠ 0) (hlt : s.w.balance (pr.sender.getD ctx.this) < fund) :
+    callStep run sch to fund rs pr ctx s = (s, { success := false, flag := 0, returndata := [], memCopy := [] }) := by
+  apply callStep_insufficient
+  rcases hs with rfl | rfl <;> exact ⟨h0, hlt⟩
+
+/-- the same for CREATE / CREATE2: 0 is pushed, the world is unchanged (the address counter has advanced for CREATE) -/
+theorem insufficient_fails_create (run : Ctx → St → St × Outcome) (a2 : Option Addr) (v : Nat) (pr : Prank) (ctx : Ctx) (s : St)
+    (h0 : v ≠ 0) (hlt : s.w.balance (pr.sender.getD ctx.this) < v) :
+    createStep run a2 v pr ctx s = (createBump a2 s, { success := false, flag := 0, returndata := [], memCopy := [] }) ∧
+    (createBump a2 s).w = s.w :=
+  ⟨createStep_insufficient run a2 v pr ctx s ⟨h0, hlt⟩, createBump_w a2 s⟩
+
+/-- conversely, lack of funds is the only way a call to an account without code can fail -/
+theorem sufficient_unknown_succeeds (run : Ctx → St → St × Outcome) (sch : Scheme) (to fund rs : Nat) (pr : Prank) (ctx : Ctx)
+    (s : St) (hc : s.w.code to = none) :
+    (callStep run sch to fund rs pr ctx s).2.flag = 0 ↔ callInsufficient sch fund pr ctx s := by
+  by_cases hi : callInsufficient sch fund pr ctx s
+  · rw [callStep_insufficient run sch to fund rs pr ctx s hi]; simp [Seen.failedEmpty, hi]
+  · rw [callStep_unknown run sch to fund rs pr ctx s hi hc]; simp [hi]
+
+example : callStep (runBody inner) .call B 11 32 {} ctxA s0 = (s0, Seen.failedEmpty) :=
+  insufficient_fails _ .call B 11 32 {} ctxA s0 (Or.inl rfl) (by decide) (by decide)
+
+/-! ### depth limit -/
+
+/-- a frame deeper than `MAX_CALL_DEPTH` halts at its first step; its caller sees a failed call and an unchanged world -/
+theorem depth_limit (f : Frame) (ctx : Ctx) (s : St) (h : ctx.depth > MAX_CALL_DEPTH) :
+    runFrame f ctx s = (s, .fail .depthLimit) := guarded_deep _ ctx s h
+
+theorem depth_limit_caller (run : Ctx → St → St × Outcome) (sch : Scheme) (to fund rs : Nat) (pr : Prank) (ctx : Ctx) (s : St)
+    (hc : (s.w.code to).isSome) (h : ctx.depth ≥ MAX_CALL_DEPTH) :
+    (callStep run sch to fund rs pr ctx s).2.flag = 0 ∧ (callStep run sch to fund rs pr ctx s).1.w = s.w := by
+  have hflag : (callStep run sch to fund rs pr ctx s).2.success = false := by
+    by_cases hi : callInsufficient sch fund pr ctx s
+    · rw [callStep_insufficient _ sch to fund rs pr ctx s hi]; rfl
+    · rw [callStep_known _ sch to fund rs pr ctx s hi hc, finishCall_seen,
+        guarded_deep _ _ _ (by simp only [mkMessage]; omega)]
+      rfl
+  exact ⟨(flag_zero_iff ..).mpr hflag, atomic _ sch to fund rs pr ctx s hflag⟩
+
+example : (callStep (runBody inner) .call B 0 0 {} { ctxA with depth := 1024 } s0).2.flag = 0 := by decide
+
+/-! ### the model against the reference EVM on concrete call programs
+
+The same behaviour written twice — as EVM bytecode run by `Spec.Evm.exec` (the Yellow-Paper interpreter) and as an
+interaction tree run by `runFrame` — gives the same storage, transient storage and balances. (The harness does this
+comparison at scale on random trees; these two instances are checked by the kernel.) -/
+
+open HalmosVerif.Spec in
+/-- observations of a reference-EVM run: the listed storage cells, transient cells and balances, then success -/
+def specObs (codes : List (Nat × List Nat)) (bal : List (Nat × Nat)) (cells tcells : List (Nat × Nat)) (addrs : List Nat) :
+    Option (List Nat × Bool) :=
+  let w : Evm.World := { code := codes, storage := [], transient := [], balance := bal }
+  let f : Evm.Frame := { this := 0x1000, caller := 0xCAFE, value := 0, calldata := [], code := (w.codeOf 0x1000).getD [],
+                         codeAddr := 0x1000, depth := 1 }
+  (Evm.exec { origin := 0xCAFE } 200 w f).map fun r =>
+    (cells.map (fun c => Evm.lookupD r.1.storage c) ++ tcells.map (fun c => Evm.lookupD r.1.transient c)
+      ++ addrs.map r.1.balanceOf, r.2.isSuccess)
+
+def modelObs (f : Frame) (code : Addr → Option Bytes) (bal : Addr → Nat) (cells tcells : List (Nat × Nat)) (addrs : List Nat) :
+    List Nat × Bool :=
+  let r := runFrame f { this := 0x1000, caller := 0xCAFE, origin := 0xCAFE, value := 0, codeAddr := 0x1000, isStatic := false, depth := 1 }
+    ⟨{ code := code, storage := fun _ _ => 0, transient := fun _ _ => 0, balance := bal }, 0⟩
+  (cells.map (fun c => r.1.w.storage c.1 c.2) ++ tcells.map (fun c => r.1.w.transient c.1 c.2) ++ addrs.map r.1.w.balance,
+   r.2.isSuccess)
+
+open HalmosVerif.Spec in
+/-- the 32-byte word MLOAD reads at `ret_loc` after the copy into zeroed memory -/
+def retWord (seen : Seen) : Nat := Evm.bytesToNat ((seen.memCopy ++ List.replicate 32 0).take 32)
+
+/-- program 1: `SSTORE(1,5); CALL(0x2000, value 3, ret 0x40..0x60); SSTORE(2,flag); SSTORE(3,RETURNDATASIZE);
+SSTORE(4,MLOAD(0x40))`; the callee does `SSTORE(1,9)` and reverts with its CALLVALUE as a word -/
+def prog1 : List (Nat × List Nat) :=
+  [(0x1000, [0x60, 0x5, 0x60, 0x1, 0x55, 0x60, 0x20, 0x60, 0x40, 0x5f, 0x5f, 0x60, 0x3, 0x61, 0x20, 0x0, 0x61, 0xff, 0xff, 0xf1,
+             0x60, 0x2, 0x55, 0x3d, 0x60, 0x3, 0x55, 0x60, 0x40, 0x51, 0x60, 0x4, 0x55, 0x0]),
+   (0x2000, [0x60, 0x9, 0x60, 0x1, 0x55, 0x34, 0x5f, 0x52, 0x60, 0x20, 0x5f, 0xfd])]
+
+open HalmosVerif.Spec in
+def tree1 : Frame :=
+  .eff (.sstore 1 5) (.call .call 0x2000 3 0x20 {}
+    (.eff (.sstore 1 9) (.read fun c _ => .done (.revert (Evm.natToBytes 32 c.value))))
+    fun seen => .eff (.sstore 2 seen.flag) (.eff (.sstore 3 seen.returndata.length) (.eff (.sstore 4 (retWord seen)) (.done (.ret [])))))
+
+theorem spec_agrees_revert :
+    specObs prog1 [(0x1000, 10)] [(0x1000, 1), (0x1000, 2), (0x1000, 3), (0x1000, 4), (0x2000, 1)] [] [0x1000, 0x2000]
+      = some (modelObs tree1 (fun a => if a = 0x1000 ∨ a = 0x2000 then some [] else none) (fun a => if a = 0x1000 then 10 else 0)
+          [(0x1000, 1), (0x1000, 2), (0x1000, 3), (0x1000, 4), (0x2000, 1)] [] [0x1000, 0x2000]) := by
+  decide +kernel
+
+/-- both sides are the expected values: the callee's write and the 3 wei are rolled back, flag 0, 32 bytes of returndata
+holding the value 3 -/
+example : modelObs tree1 (fun a => if a = 0x1000 ∨ a = 0x2000 then some [] else none) (fun a => if a = 0x1000 then 10 else 0)
+    [(0x1000, 1), (0x1000, 2), (0x1000, 3), (0x1000, 4), (0x2000, 1)] [] [0x1000, 0x2000] = ([5, 0, 32, 3, 0, 10, 0], true) := by
+  decide +kernel
+
+/-- program 2: DELEGATECALL 0x2000 (stores CALLER in slot 7, returns the two bytes ab cd; ret_size 1), STATICCALL 0x3000
+(whose code starts with SSTORE), CALL 0x3000 with 4 wei (`SSTORE(1,CALLVALUE); TSTORE(2,ADDRESS)`) -/
+def prog2 : List (Nat × List Nat) :=
+  [(0x1000, [0x60, 0x1, 0x60, 0x40, 0x5f, 0x5f, 0x61, 0x20, 0x0, 0x61, 0xff, 0xff, 0xf4, 0x60, 0x2, 0x55, 0x3d, 0x60, 0x3, 0x55,
+             0x60, 0x40, 0x51, 0x60, 0x4, 0x55, 0x5f, 0x5f, 0x5f, 0x5f, 0x61, 0x30, 0x0, 0x61, 0xff, 0xff, 0xfa, 0x60, 0x5, 0x55,
+             0x5f, 0x5f, 0x5f, 0x5f, 0x60, 0x4, 0x61, 0x30, 0x0, 0x61, 0xff, 0xff, 0xf1, 0x60, 0x6, 0x55, 0x0]),
+   (0x2000, [0x33, 0x60, 0x7, 0x55, 0x61, 0xab, 0xcd, 0x5f, 0x52, 0x60, 0x2, 0x60, 0x1e, 0xf3]),
+   (0x3000, [0x34, 0x60, 0x1, 0x55, 0x30, 0x60, 0x2, 0x5d, 0x0])]
+
+def callee3 : Frame := .read fun c _ => .eff (.sstore 1 c.value) (.eff (.tstore 2 c.this) (.done (.ret [])))
+
+def tree2 : Frame :=
+  .call .delegatecall 0x2000 0 1 {} (.read fun c _ => .eff (.sstore 7 c.caller) (.done (.ret [0xab, 0xcd]))) fun s1 =>
+    .eff (.sstore 2 s1.flag) (.eff (.sstore 3 s1.returndata.length) (.eff (.sstore 4 (retWord s1))
+      (.call .staticcall 0x3000 0 0 {} callee3 fun s2 =>
+        .eff (.sstore 5 s2.flag)
+          (.call .call 0x3000 4 0 {} callee3 fun s3 => .eff (.sstore 6 s3.flag) (.done (.ret []))))))
+
+theorem spec_agrees_schemes :
+    specObs prog2 [(0x1000, 10)] [(0x1000, 2), (0x1000, 3), (0x1000, 4), (0x1000, 5), (0x1000, 6), (0x1000, 7), (0x2000, 7), (0x3000, 1)]
+        [(0x3000, 2), (0x1000, 2)] [0x1000, 0x2000, 0x3000]
+      = some (modelObs tree2 (fun a => if a = 0x1000 ∨ a = 0x2000 ∨ a = 0x3000 then some [] else none)
+          (fun a => if a = 0x1000 then 10 else 0)
+          [(0x1000, 2), (0x1000, 3), (0x1000, 4), (0x1000, 5), (0x1000, 6), (0x1000, 7), (0x2000, 7), (0x3000, 1)]
+          [(0x3000, 2), (0x1000, 2)] [0x1000, 0x2000, 0x3000]) := by
+  decide +kernel
+
+example : modelObs tree2 (fun a => if a = 0x1000 ∨ a = 0x2000 ∨ a = 0x3000 then some [] else none)
+    (fun a => if a = 0x1000 then 10 else 0)
+    [(0x1000, 2), (0x1000, 3), (0x1000, 4), (0x1000, 5), (0x1000, 6), (0x1000, 7), (0x2000, 7), (0x3000, 1)]
+    [(0x3000, 2), (0x1000, 2)] [0x1000, 0x2000, 0x3000]
+    = ([1, 2, 0xab * 2 ^ 248, 0, 1, 0xCAFE, 0, 4, 0x3000, 0, 6, 0, 4], true) := by
+  decide +kernel
+
 end HalmosVerif.Props.C09
